@@ -332,51 +332,55 @@ Example C09_len_fold_nonvacuous :
 Proof. exact (conj len_ok_guard len_ok_python). Qed.
 Print Assumptions C09_len_fold_nonvacuous.
 
-(* the two facts about the parser's bookkeeping the guard rests on (for every copy, every gate): removing a RUN-TIME
-   value drops one entry of a non-empty copy (the remove is assumed to succeed), appending anything adds one *)
-Theorem C09_copy_remove_runtime : forall g t x off cur, t_cur t x = Some cur -> cur <> [] ->
-  exists c1, t_cur (track1 g t (TRemove x (TRt off))) x = Some c1 /\ S (length c1) = length cur.
-Proof. exact track_remove_runtime. Qed.
-Print Assumptions C09_copy_remove_runtime.
+(* what the repaired parser does with its copies (for every copy): an append / remove whose argument is not a parse-time
+   constant takes the copy away - no placeholder entry, no pop(0) -, every write under an `if` takes it away after the
+   `if`, and the body of `while True:` is parsed without the copies of the names it writes.  (These replace
+   C09_copy_remove_runtime / C09_copy_append, the facts the old guard rested on.) *)
+Theorem C09_copy_runtime_arg_untracks : forall t x a, targ_val t a = None ->
+  t_cur (track1 false t (TAppend x a)) x = None /\ t_cur (track1 false t (TRemove x a)) x = None.
+Proof. exact track_runtime_arg_untracks. Qed.
+Print Assumptions C09_copy_runtime_arg_untracks.
 
-Theorem C09_copy_append : forall g t x a cur, t_cur t x = Some cur ->
-  exists c1, t_cur (track1 g t (TAppend x a)) x = Some c1 /\ length c1 = S (length cur).
-Proof. exact track_append_any. Qed.
-Print Assumptions C09_copy_append.
+Theorem C09_copy_gated_untracks : forall t s x, In x (swrites s) -> t_cur (track1 true t s) x = None.
+Proof. exact track_gated_untracks. Qed.
+Print Assumptions C09_copy_gated_untracks.
 
-(* ---- refuted outside the guard: the folded length is stale, CPython never raises, the firmware reads out of bounds *)
+Theorem C09_loop_env_untracks : forall t0 body x, In x (body_writes body) -> t_cur (loop_env t0 body) x = None.
+Proof. exact loop_env_untracks. Qed.
+Print Assumptions C09_loop_env_untracks.
 
-(* a = [1, 2, 3]   while True: (if c > 5: a.append(9)); mon.write(a[len(a) - 1]); (if c > 5: a.remove(9))   c = 0, 0, 0
-   - the copy is updated THROUGH the branch that never runs *)
-Theorem C09_stale_len_branch_refuted : exists cs pst,
-  run_py_t stale_branch_setup stale_branch_body cs = POk pst /\
-  run_fw_t stale_branch_setup stale_branch_body cs = Unsafe OutOfBounds.
-Proof. exact stale_branch_oob. Qed.
-Print Assumptions C09_stale_len_branch_refuted.
+(* ---- the witnesses of the repaired stale-len findings (F-C09-stale-len-out-of-bounds, -later-pass-, -rebind-in-branch-,
+   -runtime-remove-pops-first-): inside the guard of C09_len_fold_safe_partial now - hence safe for EVERY sequence of
+   readings -, and on the readings that used to read out of bounds the firmware run is safe and holds CPython's live
+   data.  They replace C09_stale_len_branch_refuted, _pass_refuted, _rebind_refuted, _pop_refuted *)
 
-(* a = [1, 2, 3, 4, 5]   while True: a.remove(a[0]); mon.write(a[len(a) - 1])
-   - the loop body is parsed once: len(a) is 4 in every pass, the list has 3 elements in the second *)
-Theorem C09_stale_len_pass_refuted : exists cs pst,
-  run_py_t stale_pass_setup stale_pass_body cs = POk pst /\
-  run_fw_t stale_pass_setup stale_pass_body cs = Unsafe OutOfBounds.
-Proof. exact stale_pass_oob. Qed.
-Print Assumptions C09_stale_len_pass_refuted.
+(* a = [1, 2, 3]   while True: (if c > 5: a.append(9)); mon.write(a[len(a) - 1]); (if c > 5: a.remove(9))   c = 0, 0, 0 *)
+Theorem C09_stale_len_branch_repaired : len_ok stale_branch_setup stale_branch_body = true /\
+  exists pst st, run_py_t stale_branch_setup stale_branch_body [0; 0; 0]%Z = POk pst /\
+                 run_fw_t stale_branch_setup stale_branch_body [0; 0; 0]%Z = Safe st /\ f_live_cells st = p_live pst.
+Proof. exact stale_branch_repaired. Qed.
+Print Assumptions C09_stale_len_branch_repaired.
 
-(* a = [1, 2, 3]; b = [4]   while True: (if c > 0: a, b = b, a); mon.write(a[len(a) - 1])   c = 1, 0
-   - a re-binding inside a branch does not reach the copies of the enclosing block *)
-Theorem C09_stale_len_rebind_refuted : exists cs pst,
-  run_py_t stale_rebind_setup stale_rebind_body cs = POk pst /\
-  run_fw_t stale_rebind_setup stale_rebind_body cs = Unsafe OutOfBounds.
-Proof. exact stale_rebind_oob. Qed.
-Print Assumptions C09_stale_len_rebind_refuted.
+(* a = [1, 2, 3, 4, 5]   while True: a.remove(a[0]); mon.write(a[len(a) - 1]) *)
+Theorem C09_stale_len_pass_repaired : len_ok stale_pass_setup stale_pass_body = true /\
+  exists pst st, run_py_t stale_pass_setup stale_pass_body [0; 0; 0]%Z = POk pst /\
+                 run_fw_t stale_pass_setup stale_pass_body [0; 0; 0]%Z = Safe st /\ f_live_cells st = p_live pst.
+Proof. exact stale_pass_repaired. Qed.
+Print Assumptions C09_stale_len_pass_repaired.
 
-(* a = [1, 2, 3]   while True: a.remove(c); a.remove(1); mon.write(a[len(a) - 1]); a.append(1); a.append(c)   c = 3
-   - remove(<run-time value>) drops the FIRST entry of the copy (1), remove(1) then finds nothing in the copy *)
-Theorem C09_stale_len_pop_refuted : exists cs pst,
-  run_py_t stale_pop_setup stale_pop_body cs = POk pst /\
-  run_fw_t stale_pop_setup stale_pop_body cs = Unsafe OutOfBounds.
-Proof. exact stale_pop_oob. Qed.
-Print Assumptions C09_stale_len_pop_refuted.
+(* a = [1, 2, 3]; b = [4]   while True: (if c > 0: a, b = b, a); mon.write(a[len(a) - 1])   c = 1, 0 *)
+Theorem C09_stale_len_rebind_repaired : len_ok stale_rebind_setup stale_rebind_body = true /\
+  exists pst st, run_py_t stale_rebind_setup stale_rebind_body [1; 0]%Z = POk pst /\
+                 run_fw_t stale_rebind_setup stale_rebind_body [1; 0]%Z = Safe st /\ f_live_cells st = p_live pst.
+Proof. exact stale_rebind_repaired. Qed.
+Print Assumptions C09_stale_len_rebind_repaired.
+
+(* a = [1, 2, 3]   while True: a.remove(c); a.remove(1); mon.write(a[len(a) - 1]); a.append(1); a.append(c)   c = 3 *)
+Theorem C09_stale_len_pop_repaired : len_ok stale_pop_setup stale_pop_body = true /\
+  exists pst st, run_py_t stale_pop_setup stale_pop_body [3]%Z = POk pst /\
+                 run_fw_t stale_pop_setup stale_pop_body [3]%Z = Safe st /\ f_live_cells st = p_live pst.
+Proof. exact stale_pop_repaired. Qed.
+Print Assumptions C09_stale_len_pop_repaired.
 
 (* ============================================================== lists returned by functions: read-only sharing *)
 
@@ -446,7 +450,8 @@ Theorem C09_fn_param_never_folded : forall td params p, In p params -> t_cur (fn
 Proof. exact fn_env_param. Qed.
 Print Assumptions C09_fn_param_never_folded.
 
-(* ... a global that no parameter shadows keeps the copy of the place where the function is parsed ... *)
+(* ... a global that no parameter shadows keeps the copy of the place where the function is parsed (that place's copies
+   are taken without the names the script writes at more than one site: DListLen.fn_first) ... *)
 Theorem C09_fn_global_keeps_def_copy : forall td params y, ~ In y params -> t_cur (fn_env td params) y = t_cur td y.
 Proof. exact fn_env_global. Qed.
 Print Assumptions C09_fn_global_keeps_def_copy.
@@ -466,12 +471,13 @@ Example C09_fn_shadow_nonvacuous :
 Proof. exact (conj shadow_ok_guard shadow_ok_python). Qed.
 Print Assumptions C09_fn_shadow_nonvacuous.
 
-(* refuted outside the guard: a = [1, 2, 3];  def h(P): return P[len(a) - 1]
+(* the witness of the repaired finding F-C09-stale-len-function-first-call-out-of-bounds:
+   a = [1, 2, 3];  def h(P): return P[len(a) - 1]
    while True: r = h(a); mon.write(r); a.remove(c); r = h(a); mon.write(r); a.append(c)   c = 2
-   - len(a) in the function body is folded where the function's list variant is parsed, at its FIRST call (3); the list
-   has 2 elements at the second call *)
-Theorem C09_stale_len_first_call_refuted : exists cs pst,
-  run_py_t stale_def_setup stale_def_body cs = POk pst /\
-  run_fw_t stale_def_setup stale_def_body cs = Unsafe OutOfBounds.
-Proof. exact stale_def_oob. Qed.
-Print Assumptions C09_stale_len_first_call_refuted.
+   - a has more than one write site in the script, so len(a) in the function body is read at run time; inside the guard
+   (replaces C09_stale_len_first_call_refuted) *)
+Theorem C09_stale_len_first_call_repaired : len_ok stale_def_setup stale_def_body = true /\
+  exists pst st, run_py_t stale_def_setup stale_def_body [2]%Z = POk pst /\
+                 run_fw_t stale_def_setup stale_def_body [2]%Z = Safe st /\ f_live_cells st = p_live pst.
+Proof. exact stale_def_repaired. Qed.
+Print Assumptions C09_stale_len_first_call_repaired.
